@@ -363,7 +363,7 @@ def run(ctx):
             continue
         sid2, plan2, lines2, off2, reason2 = rej2[0]
         bad = lines2[off2] if off2 < len(lines2) else None
-        ctx.violation("configuration trace rejected by Config.tla at %s: %s" % (json.dumps({k: bad[k] for k in ("k", "key", "res", "cbs", "val", "isdef", "got")}) if bad else "?", reason2),
+        ctx.violation("configuration trace rejected by Config.tla at %s: %s" % (json.dumps({k: bad[k] for k in (("e", "sid", "declared", "at_init", "argv") if bad["e"] == "reset" else ("k", "key", "res", "cbs", "val", "isdef", "got"))}) if bad else "?", reason2),
                       files={"registry.json": regf, "trace.ndjson": "\n".join(json.dumps(r) for r in lines2) + "\n",
                              "howto.txt": "REG=registry.json TRACE=trace.ndjson tlc -workers 1 spec/lib/Config_trace.tla (accepted iff PROGRESS = lines + 1)\n"},
                       signature="C48:%s:%s:%s" % (bad["k"] if bad else "?", bad["key"] if bad else "?", bad["res"] if bad else "?"),
